@@ -52,8 +52,21 @@ WitnessFail(c) ==
   ELSE IF c.kind = "world" /\ c.w \in SeqToSet(c.presentw) THEN "WitnessWorldFresh"
   ELSE ""
 
+\* step record: one rule application of a real proof.  A rule other than the frame rules that adds an access
+\* pair introduces a witness world: it must not be on the branch already.
+FrameRuleNames == {"Reflexive", "Transitive", "Symmetric"}
+StepFail(c) ==
+  IF c.rule \notin FrameRuleNames /\
+     \E g \in 1..Len(c.adds) : \E j \in 1..Len(c.adds[g]) :
+        c.adds[g][j].k = "a" /\ c.adds[g][j].w2 \in SeqToSet(c.pre_worlds)
+  THEN "WitnessWorldFreshInStep" ELSE ""
+
 Failures(c) ==
-  IF c.rec = "history" THEN Walk(c, <<Empty>>, <<Empty>>, 1)
+  IF c.rec = "step"
+  THEN (IF StepFail(c) = "" THEN <<>>
+        ELSE <<[id |-> c.id, kind |-> "violation", clause |-> StepFail(c), event |-> 0,
+                op |-> [op |-> c.rule, b |-> 0, k |-> 0], obs |-> <<>>]>>)
+  ELSE IF c.rec = "history" THEN Walk(c, <<Empty>>, <<Empty>>, 1)
   ELSE LET wf == WitnessFail(c) IN
        IF wf = "" THEN <<>> ELSE <<[id |-> c.id, kind |-> "violation", clause |-> wf, event |-> 0,
                                     op |-> [op |-> c.kind, b |-> 0, k |-> 0], obs |-> <<>>]>>
